@@ -378,7 +378,12 @@ func combineGlobalFields(fields []LogField) []LogField {
 		return fields
 	}
 
-	return append(globals.([]LogField), fields...)
+	// 全局字段的切片由所有调用方共享：必须复制到新的切片，
+	// 否则并发的 append 会写进同一个底层数组（多余容量处），记录之间的字段互相覆盖。
+	gf := globals.([]LogField)
+	ret := make([]LogField, 0, len(gf)+len(fields))
+	ret = append(ret, gf...)
+	return append(ret, fields...)
 }
 
 func buildFields(fields ...LogField) []string {
